@@ -36,6 +36,9 @@ pub struct Round {
    pub merge: bool,
    /// keys looked up through every read path after the merge (present and absent ones)
    pub lookups: Vec<u32>,
+   /// every freeze / unfreeze of this round is issued twice (a redundant transition must be a no-op)
+   #[serde(default)]
+   pub redundant: bool,
 }
 
 #[derive(Clone, Debug, Serialize, Deserialize, PartialEq)]
@@ -463,6 +466,20 @@ fn check_linearizable(events: &[IfAbsentEvent], preexisting: &BTreeSet<u32>, rou
    Ok(())
 }
 
+fn fz<I: Idx>(i: &mut I, twice: bool) {
+   i.freeze();
+   if twice {
+      i.freeze();
+   }
+}
+
+fn ufz<I: Idx>(i: &mut I, twice: bool) {
+   i.unfreeze();
+   if twice {
+      i.unfreeze();
+   }
+}
+
 fn run_typed<I: Idx + 'static>(sc: &IndexScenario) -> Result<(), Violation> {
    let kind = I::KIND;
    let construct = rayon_core::ThreadPoolBuilder::new().num_threads(sc.construct_pool).build().unwrap();
@@ -470,6 +487,11 @@ fn run_typed<I: Idx + 'static>(sc: &IndexScenario) -> Result<(), Violation> {
    let (mut new, mut delta, mut total) = construct.install(|| AssertSend((I::default(), I::default(), I::default()))).0;
    let (mut m_new, mut m_delta, mut m_total): (Model, Model, Model) = Default::default();
    for (ri, round) in sc.rounds.iter().enumerate() {
+      if round.redundant {
+         ufz(&mut new, false);
+         ufz(&mut delta, false);
+         ufz(&mut total, false);
+      }
       // owner-side inserts through the exclusive write path
       for &(target, k, v) in round.pre.iter() {
          let (idx, m) = match target {
@@ -532,9 +554,9 @@ fn run_typed<I: Idx + 'static>(sc: &IndexScenario) -> Result<(), Violation> {
          model_insert(kind, &mut m_new, e.key, e.val);
       }
       if round.check_new {
-         new.freeze();
+         fz(&mut new, round.redundant);
          pool.install(|| check_reads("new", &new, &m_new, &round.lookups, ri).map_err(AssertSend)).map_err(|e| e.0)?;
-         new.unfreeze();
+         ufz(&mut new, round.redundant);
       }
       if round.merge {
          pool.install(|| I::merge(&mut new, &mut delta, &mut total));
@@ -548,8 +570,8 @@ fn run_typed<I: Idx + 'static>(sc: &IndexScenario) -> Result<(), Violation> {
          }
          m_delta = std::mem::take(&mut m_new);
       }
-      total.freeze();
-      delta.freeze();
+      fz(&mut total, round.redundant);
+      fz(&mut delta, round.redundant);
       let r = pool.install(|| {
          check_reads("total", &total, &m_total, &round.lookups, ri)
             .and_then(|_| check_reads("delta", &delta, &m_delta, &round.lookups, ri))
@@ -557,14 +579,14 @@ fn run_typed<I: Idx + 'static>(sc: &IndexScenario) -> Result<(), Violation> {
             .map_err(AssertSend)
       });
       r.map_err(|e| e.0)?;
-      total.unfreeze();
-      delta.unfreeze();
+      ufz(&mut total, round.redundant);
+      ufz(&mut delta, round.redundant);
       // freeze / unfreeze round trip preserved `new` (must still be empty after a merge)
       if round.merge {
-         new.freeze();
+         fz(&mut new, round.redundant);
          let r = pool.install(|| check_reads("new(after merge)", &new, &m_new, &[], ri).map_err(AssertSend));
          r.map_err(|e| e.0)?;
-         new.unfreeze();
+         ufz(&mut new, round.redundant);
       }
    }
    Ok(())
@@ -636,7 +658,7 @@ pub fn gen_scenario(rng: &mut vcorpus::val::Rng, thorough: bool) -> IndexScenari
       let lookups: Vec<u32> = (0..rng.range(1, 3))
          .map(|_| if kind_full { race_base + rng.below(n_keys as u64 + 2) as u32 } else { rng.below(n_keys as u64 + 2) as u32 })
          .collect();
-      rounds.push(Round { pre, writers, check_new: rng.chance(400), merge: rng.chance(850), lookups });
+      rounds.push(Round { pre, writers, check_new: rng.chance(400), merge: rng.chance(850), lookups, redundant: rng.chance(250) });
    }
    // "hot shard" shape (concurrent full index): racers on one or two keys next to writers that
    // keep the same few shards busy with unrelated keys, all in round 0 and again after a merge
@@ -664,7 +686,7 @@ pub fn gen_scenario(rng: &mut vcorpus::val::Rng, thorough: bool) -> IndexScenari
             writers.push(ops);
          }
          rng.shuffle(&mut writers);
-         rounds.push(Round { pre: vec![], writers, check_new: rng.chance(300), merge: true, lookups: vec![race_base, race_base + 1] });
+         rounds.push(Round { pre: vec![], writers, check_new: rng.chance(300), merge: true, lookups: vec![race_base, race_base + 1], redundant: rng.chance(150) });
       }
    }
    let pool = *rng.pick(&[2usize, 2, 3, 4, 4, 8, 1]);
